@@ -32,21 +32,21 @@ type jMember struct {
 }
 
 type jwsBuild struct {
-	Members      []jMember
-	ProtectedSeg *string // overrides the protected segment (base64url text) entirely
+	Members       []jMember
+	ProtectedSeg  *string // overrides the protected segment (base64url text) entirely
 	ProtectedJSON *string // overrides the JSON text inside the protected segment
-	Payload      []byte
-	PayloadSeg   *string
-	SignAlg      string // algorithm the harness signs with: PS256.. ES512, RS256, HS256, none, "" = none
-	SignKey      *Key   // default: leaf key
-	SigSeg       *string
-	SigMutate    func(sig []byte) []byte
-	Chain        []*x509.Certificate
-	X5cRaw       [][]byte // overrides Chain's DER
-	Agent        string
-	Tst          []byte
-	OuterJSON    *string // overrides the whole envelope text
-	OuterStyle   string  // "", "reordered", "whitespace", "dup-payload-first", "extra-key"
+	Payload       []byte
+	PayloadSeg    *string
+	SignAlg       string // algorithm the harness signs with: PS256.. ES512, RS256, HS256, none, "" = none
+	SignKey       *Key   // default: leaf key
+	SigSeg        *string
+	SigMutate     func(sig []byte) []byte
+	Chain         []*x509.Certificate
+	X5cRaw        [][]byte // overrides Chain's DER
+	Agent         string
+	Tst           []byte
+	OuterJSON     *string // overrides the whole envelope text
+	OuterStyle    string  // "", "reordered", "whitespace", "dup-payload-first", "extra-key"
 }
 
 func b64u(b []byte) string { return base64.RawURLEncoding.EncodeToString(b) }
